@@ -21,6 +21,7 @@ import PyomaVerif.Ops.C05
 import PyomaVerif.Ops.C07All
 import PyomaVerif.Ops.C09Run
 import PyomaVerif.Ops.Poles
+import PyomaVerif.Ops.C17Table
 /-! Line-protocol driver: one JSON object per line in, one JSON value per line out. -/
 open Lean PV PV.Codec
 
@@ -29,6 +30,7 @@ def allOps : List (String × (Json → Except String Json)) :=
     ++ PV.Ops.C07All.ops
   ++ PV.Ops.C09Run.ops
   ++ PV.Ops.Poles.ops
+  ++ PV.Ops.C17Table.ops
 
 def handle (line : String) : String :=
   match Json.parse line with
